@@ -177,6 +177,15 @@ fn ilv_programs() -> Vec<Program> {
         p.world.iter_order_is_choice = true;
         v.push(p);
     }
+    {
+        let mut p = mk("k:upsert(ttl 4s);await;get || delete(b);put_ttl(b, 9s) || {clock+3s;tick}", 1000, vec![put_ttl(1, 30, 1000), put_ttl(2, 30, 1000)], vec![
+            vec![ups(1, true, Some(30), Some(4000), false), Op::Await { call: 0 }, get(1)],
+            vec![del(2), put_ttl(2, 30, 9000)],
+            vec![adv(3000), Op::Tick],
+        ]);
+        p.thorough_only = true;
+        v.push(p);
+    }
     v
 }
 
@@ -191,7 +200,7 @@ pub fn def(ctx: &Ctx) -> PropertyDef {
         let name = seq_spec(ctx, shards, w).name;
         scenarios.push(seq_scenario(move |c| seq_spec(c, shards, w), &name));
     }
-    for p in ilv_programs() {
+    for p in crate::harness::ilv::for_tier(ilv_programs(), quick) {
         scenarios.push({
                 let nthreads = p.threads.len();
                 program_scenario(p, ilv_oracle(), move |c| crate::harness::ilv::tier_cfg(c, nthreads))
